@@ -11,7 +11,7 @@ from harness.creators import SHAPES
 import refconc
 
 PROPERTY = "C08"
-MODULES = ["torrent", "utils", "hasher"]
+MODULES = ["torrent", "utils", "hasher", "commands", "cli"]
 ASSUMPTIONS = [
     "non-interference harness: one path creates the same payload twice with two independent copies of every irrelevant "
     "input (clock, listing permutation, location, path spelling, cwd, trackers/seeds/outfile, progress mode) and equal "
@@ -70,10 +70,77 @@ def jobs(tier):
                 if q and which != "1" and shape == "flat2" and sp[0] in ("dbltrail", "dblsep", "dot"):
                     continue
                 out.append(("%s.%s.%s" % (which, shape, sp[0]), "job", dict(which=which, shape=shape, K=K, spell=i)))
+    # the command line route: output location outside the payload, inside it (not yet existing), as a directory, omitted
+    for mv in ("1", "2", "3"):
+        for k, outv in enumerate(OUT_VARIANTS):
+            if q and (int(mv) + k) % 2:
+                continue
+            out.append(("cli.v%s.out-%d" % (mv, k), "job_cli_out", dict(mv=mv, out=k)))
+    for which in ["1", "2a", "3a"]:
+        out.append(("history-plen.%s" % which, "job_history_plen", dict(which=which, P1=32768, P2=16384)))
     for which in ["1", "2a", "3a"]:
         out.append(("history.%s.add-below-root" % which, "job_history", dict(which=which, mut="add")))
         out.append(("history.%s.grow-in-place" % which, "job_history", dict(which=which, mut="grow")))
     return out
+
+
+# (label, -o value or None, working directory)
+OUT_VARIANTS = [("inside-subdir", "/data/name/d/x.torrent", "/cwd"), ("inside-root", "/data/name/name.torrent", "/cwd"),
+                ("dir-form", "/out/", "/cwd"), ("omitted-cwd-elsewhere", None, "/out"), ("relative", "../out/y.torrent", "/cwd")]
+
+
+def job_cli_out(E, mv, out, _mutants=None):
+    """`torrentfile create` with different output locations: the info dictionary must equal the one obtained with the
+    metafile written well away from the payload."""
+    P = 16384
+    label, outv, cwd = OUT_VARIANTS[out]
+    infos = []
+    for run, (o, c) in enumerate((("/out/ref.torrent", "/cwd"), (outv, cwd))):
+        fs = AFS(cwd=c)
+        s0 = E.int("s0", 1, 2 * P)
+        s1 = E.int("s1", 0, P)
+        fs.add("/data/name/a", ("f", 0), s0)
+        fs.add("/data/name/d/b", ("f", 1), s1)
+        fs.mkdirs("/out")
+        fs.mkdirs("/cwd")
+        w = World(fs, mutants=_mutants)
+        argv = ["create", "--prog", "0", "--meta-version", mv, "--piece-length", "14"] + (["-o", o] if o else []) + ["/data/name"]
+        try:
+            infos.append(w.mod("cli").execute(argv).meta["info"])
+        except SystemExit as ex:
+            E.fail("C08.cli.parser-accepts", str(ex))
+            return
+        except Exception as ex:  # noqa: BLE001
+            E.fail("C08.cli.no-exception", "%r: %s: %s" % (argv, type(ex).__name__, ex))
+            return
+    E.check(ben_equal(infos[0], infos[1]), "C08.cli.info-equal",
+            "output location %s (-o %r from %s) changes the info dictionary" % (label, outv, cwd))
+    for k in WITNESSES:
+        E.witnesses.setdefault(k, True)
+
+
+def job_history_plen(E, which, P1, P2, _mutants=None):
+    """Two creations with different piece lengths in one process: the second equals what a fresh process gives."""
+    from harness import c09
+    fs = AFS(order="reversed")
+    t0 = E.int("t0", 2 * P1 + 1, 3 * P1)          # three pieces at P1
+    fs.add("/first/other/big", ("g", 0), t0)
+    s0 = E.int("s0", 1, 6 * P2)
+    s1 = E.int("s1", 0, P2)
+    fs.add("/data/name/a", ("f", 0), s0)
+    fs.add("/data/name/d/b", ("f", 1), s1)
+    E.note("shape", "plen")
+    w = World(fs, mutants=_mutants)
+    try:
+        cr.create(w, which, path="/first/other", piece_length=P1, progress=0)
+        got = cr.create(w, which, path="/data/name", piece_length=P2, progress=0).meta["info"]
+        fresh = cr.create(World(fs.clone(), mutants=_mutants), which, path="/data/name", piece_length=P2, progress=0).meta["info"]
+    except Exception as ex:  # noqa: BLE001
+        E.fail("C08.no-exception", "%s: %s" % (type(ex).__name__, ex))
+        return
+    E.check(ben_equal(got, fresh), "C08.history-plen.info-equal", "after a creation with piece length %d the info dictionary differs from a fresh process's" % P1)
+    for k in WITNESSES:
+        E.witnesses.setdefault(k, True)
 
 
 def job_history(E, which, mut, _mutants=None):
@@ -147,6 +214,10 @@ def job(E, which, shape, K, spell, _mutants=None):
 def replay(params, model, notes, workdir, seed):
     import io
     import contextlib
+    if "out" in params:
+        return _replay_cli_out(params, model, workdir, seed)
+    if "P1" in params:
+        return _replay_plen(params, model, workdir, seed)
     if "mut" in params:
         from harness import c09
         bad = c09.replay(dict(which1=params["which"], which2=params["which"], mut=params["mut"], P1=16384, P2=16384), model, notes, workdir, seed)
@@ -226,6 +297,63 @@ def replay(params, model, notes, workdir, seed):
     if list(i1.items()) != list(i2.items()):
         bad.append("C08.info-equal (name %r vs %r)" % (i1.get("name"), i2.get("name")))
     return bad
+
+
+def _replay_cli_out(params, model, workdir, seed):
+    import io
+    import contextlib
+    label, outv, cwd = OUT_VARIANTS[params["out"]]
+    infos = []
+    old = os.getcwd()
+    for run, (o, c) in enumerate((("/out/ref.torrent", "/cwd"), (outv, cwd))):
+        root = os.path.join(workdir, "r%d" % run)
+        refconc.write_file(root + "/data/name/a", refconc.content(("f", 0), int(model["s0"]), seed))
+        refconc.write_file(root + "/data/name/d/b", refconc.content(("f", 1), int(model["s1"]), seed))
+        for d in ("/out", "/cwd"):
+            os.makedirs(root + d, exist_ok=True)
+        if o is not None and o.startswith("/"):
+            o = root + o
+        argv = ["create", "--prog", "0", "--meta-version", params["mv"], "--piece-length", "14"] + (["-o", o] if o else []) + [root + "/data/name"]
+        mods = cr.real_torrentfile()
+        import torrentfile.cli as cli
+        os.chdir(root + c)
+        try:
+            with contextlib.redirect_stdout(io.StringIO()):
+                infos.append(cr.norm_real(cli.execute(argv).meta["info"]))
+        except BaseException as ex:  # noqa: BLE001
+            return ["C08.cli.no-exception: %s: %s" % (type(ex).__name__, ex)]
+        finally:
+            os.chdir(old)
+    return [] if list(infos[0].items()) == list(infos[1].items()) else ["C08.cli.info-equal"]
+
+
+def _replay_plen(params, model, workdir, seed):
+    import subprocess
+    import json
+    import sys
+    refconc.write_file(workdir + "/first/other/big", refconc.content(("g", 0), int(model["t0"]), seed))
+    refconc.write_file(workdir + "/data/name/a", refconc.content(("f", 0), int(model["s0"]), seed))
+    refconc.write_file(workdir + "/data/name/d/b", refconc.content(("f", 1), int(model["s1"]), seed))
+    mods = cr.real_torrentfile()
+    T = mods["torrentfile.torrent"]
+    cls, mv = cr.CLS[params["which"]]
+    import io
+    import contextlib
+    outs = []
+    for seq in ((("first/other", params["P1"]), ("data/name", params["P2"])), (("data/name", params["P2"]),)):
+        mods = cr.real_torrentfile()
+        T = mods["torrentfile.torrent"]
+        try:
+            with contextlib.redirect_stdout(io.StringIO()):
+                for pth, P in seq:
+                    kw = dict(path=os.path.join(workdir, pth), piece_length=P, progress=0)
+                    if mv is not None:
+                        kw["meta_version"] = mv
+                    t = getattr(T, cls)(**kw)
+        except Exception as ex:  # noqa: BLE001
+            return ["C08.no-exception: %s: %s" % (type(ex).__name__, ex)]
+        outs.append(cr.norm_real(t.sort_meta()["info"]))
+    return [] if list(outs[0].items()) == list(outs[1].items()) else ["C08.history-plen.info-equal"]
 
 
 def canaries(tier):
